@@ -301,9 +301,8 @@ private theorem onLibEvBody_inv (cfg : Cfg) (st : St) (o0 : List Out) (e : LibEv
             apply inv_of_client
             simpa [St.newObj] using hc
   | paused =>
-    simp only [onLibEvBody, Option.some.injEq, Prod.mk.injEq] at h
-    obtain ⟨rfl, _⟩ := h
-    exact hI
+    simp only [onLibEvBody] at h
+    split at h <;> (simp only [Option.some.injEq, Prod.mk.injEq] at h; obtain ⟨rfl, _⟩ := h; exact hI)
   | needData =>
     simp only [onLibEvBody, Option.some.injEq, Prod.mk.injEq] at h
     obtain ⟨rfl, _⟩ := h
